@@ -8,9 +8,13 @@
      {"ev":"reset","case":n,"hdr":{"logline":line of the log event,"n":N,..}}
      {"ev":"ok_stream","id":n,"kind":"stream"|"query","filt":[[k,on,e,a,c],..],"win":[a,b],"parsed":bool}   the reply announcing the id
      {"ev":"bin_msgs","id":n,"n":k,"msgs":[M,...]}      a DltMsgs frame as received (k = 0: end marker of a query)
-     {"ev":"bin_sum","id":n,"n":k,"first":i,"last":j,"inc":c}   big logs only (hdr.big = N > 0: N uniform messages, the log event
-                                               carries "uniform":[e,a,c] instead of the messages): summary of a DltMsgs frame - message
-                                               index of its first and last message, number of adjacent pairs whose index grows by 1
+     {"ev":"bin_sum","id":n,"n":k,"first":i,"last":j,"sum":x,"intact":c}   big logs only (hdr.big = N > 0: N messages whose ecu/apid/ctid
+                                               repeat with a period, the log event carries "period":[e[..],a[..],c[..]] instead of the
+                                               messages): summary of a DltMsgs frame - message index of its first and last message, sum of
+                                               the indices mod 1000003, number of messages equal in every field to the generated original
+     {"ev":"txt_sum","id":n,"n":k,"pos0":p,"posinc":q,"first":i,"last":j,"sum":x,"intact":c}   a run of text frames `stream:<id> msg(<pos>):..`
+                                               of a non-binary stream: first stream position, number of adjacent pairs whose position grows
+                                               by 1, then as bin_sum (intact: index, timestamp, counter, ecu/apid/ctid of the header text)
      {"ev":"ok_change","old":o,"id":n,"win":[a,b]}      reply to stream_change_window
      {"ev":"quiescent"}                        the file is parsed completely and the server loop has nothing more to send
      {"ev":"ok_search","id","start","max","filt","idxs":[..],"next":n|-1}   one page of stream_search
@@ -24,8 +28,9 @@
    min(b, |FL|), every listed field equal to the file's; at `quiescent` exactly [a, min(b,|FL|)) has been delivered;
    a window change renews the id and the same holds again for the new window.  A query's end marker: complete if the
    query was created on a completely parsed file (otherwise only the prefix property - narrower reading).
-   Big logs (windows of tens of thousands of messages): the frames must tile [a, min(b,|FL|)) exactly, in order, each
-   position once (field equality is checked on the small logs only).
+   Big logs (windows of tens of thousands of messages) and text streams: the frames must tile [a, min(b,|FL|)) exactly, in
+   order, each position once - first and last index and the index sum of every frame are those of the expected positions,
+   and every delivered message equals the generated message with its index (equality established by the driver).
    A search page examined the positions [start, X) (X = next, or the stream length when next is absent) and returns
    exactly the matching ones, at most `max`; index/time lookups return the first stream position not before the
    requested message / time.                                                                                   *)
@@ -41,7 +46,7 @@ VARIABLES l, case, phase, logline, nbig, cur, maxId, viol, kfUsed
 vars == <<l, case, phase, logline, nbig, cur, maxId, viol, kfUsed>>
 \* cur: [id, kind, fl (1-based log positions kept by the filters), unf (no filters), a, b, del (delivered under id), live, full]
 
-NoCur == [id |-> 0, kind |-> "", fl |-> <<>>, slen |-> 0, unf |-> FALSE, a |-> 0, b |-> 0, del |-> 0, live |-> FALSE, full |-> FALSE]
+NoCur == [id |-> 0, kind |-> "", fl |-> <<>>, pr |-> <<>>, slen |-> 0, unf |-> FALSE, a |-> 0, b |-> 0, del |-> 0, live |-> FALSE, full |-> FALSE]
 Init == /\ l = 1 /\ case = -1 /\ phase = "idle" /\ logline = 0 /\ nbig = 0 /\ cur = NoCur /\ maxId = 0 /\ viol = {} /\ kfUsed = {}
 
 Ev(e) == l <= Len(Rec) /\ Rec[l].ev = e /\ l' = l + 1
@@ -61,15 +66,22 @@ Keep(filt, m) == /\ (ActiveOf(filt, "pos") = {} \/ \E j \in ActiveOf(filt, "pos"
 FiltersActive(filt) == (ActiveOf(filt, "pos") \cup ActiveOf(filt, "neg") \cup ActiveOf(filt, "event")) # {}
 Kept(filt) == SelectSeq([i \in 1..Len(Log) |-> i], LAMBDA i : Keep(filt, Log[i]))
 
+\* ---- big periodic log: message i has ecu e[i % |e|], apid a[i % |a|], ctid c[i % |c|]; the kept positions repeat with period L
+Per == Rec[logline].period
+L == Len(Per.e) * Len(Per.a) * Len(Per.c)
+BigMsg(i) == [e |-> Per.e[(i % Len(Per.e)) + 1], a |-> Per.a[(i % Len(Per.a)) + 1], c |-> Per.c[(i % Len(Per.c)) + 1]]
+KeptResidues(filt) == SelectSeq([r \in 1..L |-> r - 1], LAMBDA r : Keep(filt, BigMsg(r)))        \* ascending
+BigLen(res) == (nbig \div L) * Len(res) + Cardinality({k \in 1..Len(res) : res[k] < nbig % L})
 LogEv == /\ Ev("log") /\ phase \in {"idle", "ended", "rejected"} /\ UNCHANGED <<case, phase, logline, nbig, cur, maxId, viol, kfUsed>>
 
 Reset == /\ Ev("reset") /\ case' = Cur.case /\ logline' = Cur.hdr.logline /\ nbig' = Cur.hdr.big /\ cur' = NoCur /\ maxId' = 0 /\ phase' = "running"
          /\ viol' = (IF phase = "running" THEN viol \cup {case} ELSE viol) /\ UNCHANGED kfUsed
 
 OkStream == /\ Ev("ok_stream") /\ phase = "running" /\ ~cur.live /\ Cur.id > maxId
-            /\ LET kept == IF nbig > 0 THEN <<>> ELSE Kept(Cur.filt) IN
-               cur' = [id |-> Cur.id, kind |-> Cur.kind, fl |-> kept,
-                       slen |-> (IF nbig > 0 THEN (IF Keep(Cur.filt, Rec[logline].uniform) THEN nbig ELSE 0) ELSE Len(kept)),
+            /\ LET kept == IF nbig > 0 THEN <<>> ELSE Kept(Cur.filt)
+                   res == IF nbig > 0 THEN KeptResidues(Cur.filt) ELSE <<>> IN
+               cur' = [id |-> Cur.id, kind |-> Cur.kind, fl |-> kept, pr |-> res,
+                       slen |-> (IF nbig > 0 THEN BigLen(res) ELSE Len(kept)),
                        unf |-> ~FiltersActive(Cur.filt),
                        a |-> Cur.win[1], b |-> Cur.win[2], del |-> 0, live |-> TRUE, full |-> Cur.parsed]
             /\ maxId' = Cur.id /\ UNCHANGED <<case, phase, logline, nbig, viol, kfUsed>>
@@ -84,10 +96,29 @@ BinMsgs == /\ Ev("bin_msgs") /\ phase = "running" /\ cur.live /\ Cur.id = cur.id
            /\ cur' = [cur EXCEPT !.del = @ + Cur.n]
            /\ UNCHANGED <<case, phase, logline, nbig, maxId, viol, kfUsed>>
 
-\* big uniform log: stream position p holds the message with index p; the frame is a gap-free run continuing the delivery
+\* ---- frame summaries.  IdxAt(p): message index expected at stream position p (0-based); SumIdx(lo, n): sum of the expected
+\*      indices of the positions lo .. lo+n-1 modulo M (all intermediate values stay below 2^31)
+M == 1000003
+IdxAt(p) == IF nbig > 0 THEN (p \div Len(cur.pr)) * L + cur.pr[(p % Len(cur.pr)) + 1] ELSE Log[cur.fl[p + 1]].i
+RECURSIVE PrefixP(_)
+PrefixP(r) == IF r = 0 THEN 0 ELSE PrefixP(r - 1) + cur.pr[r]
+\* F(m) = sum of the indices of the first m kept positions of the periodic log
+F(m) == LET per == Len(cur.pr) q == m \div per r == m % per IN
+        ((((q * (q - 1)) \div 2) % M) * (L * per) + q * PrefixP(per) + L * q * r + PrefixP(r)) % M
+RECURSIVE SumSmall(_, _)
+SumSmall(lo, n) == IF n = 0 THEN 0 ELSE (IdxAt(lo) + SumSmall(lo + 1, n - 1)) % M
+SumIdx(lo, n) == IF nbig > 0 THEN (((F(lo + n) - F(lo)) % M) + M) % M ELSE SumSmall(lo, n)
+SumOk == /\ cur.a + cur.del + Cur.n <= WinEnd                                    \* inside the window, nothing twice
+         /\ Cur.first = IdxAt(cur.a + cur.del) /\ Cur.last = IdxAt(cur.a + cur.del + Cur.n - 1)
+         /\ Cur.sum = SumIdx(cur.a + cur.del, Cur.n)                              \* exactly the expected positions' messages
+         /\ Cur.intact = Cur.n                                                   \* each equal to the file's message
 BinSum == /\ Ev("bin_sum") /\ phase = "running" /\ cur.live /\ Cur.id = cur.id /\ Cur.n > 0 /\ nbig > 0
-          /\ cur.a + cur.del + Cur.n <= WinEnd
-          /\ Cur.first = cur.a + cur.del /\ Cur.last = Cur.first + Cur.n - 1 /\ Cur.inc = Cur.n - 1
+          /\ SumOk
+          /\ cur' = [cur EXCEPT !.del = @ + Cur.n]
+          /\ UNCHANGED <<case, phase, logline, nbig, maxId, viol, kfUsed>>
+TxtSum == /\ Ev("txt_sum") /\ phase = "running" /\ cur.live /\ Cur.id = cur.id /\ Cur.n > 0
+          /\ Cur.pos0 = cur.a + cur.del /\ Cur.posinc = Cur.n - 1                 \* consecutive stream positions
+          /\ SumOk
           /\ cur' = [cur EXCEPT !.del = @ + Cur.n]
           /\ UNCHANGED <<case, phase, logline, nbig, maxId, viol, kfUsed>>
 
@@ -146,7 +177,7 @@ Stopped == /\ Ev("stopped") /\ phase = "running" /\ cur.live /\ Cur.id = cur.id
            /\ cur' = [cur EXCEPT !.live = FALSE] /\ UNCHANGED <<case, phase, logline, nbig, maxId, viol, kfUsed>>
 End == /\ Ev("end") /\ phase = "running" /\ phase' = "ended" /\ UNCHANGED <<case, logline, nbig, cur, maxId, viol, kfUsed>>
 
-Matched == \/ ENABLED OkStream \/ ENABLED BinMsgs \/ ENABLED BinSum \/ ENABLED EndMarker \/ ENABLED Quiescent \/ ENABLED OkChange
+Matched == \/ ENABLED OkStream \/ ENABLED BinMsgs \/ ENABLED BinSum \/ ENABLED TxtSum \/ ENABLED EndMarker \/ ENABLED Quiescent \/ ENABLED OkChange
            \/ ENABLED OkSearch \/ ENABLED KfSearchSkips \/ ENABLED KfSearchUnfiltered
            \/ ENABLED OkBsearch \/ ENABLED ErrBsearch \/ ENABLED KfIndexUnfiltered \/ ENABLED Stopped \/ ENABLED End
 Reject == /\ l <= Len(Rec) /\ Cur.ev \notin {"reset", "log"} /\ phase = "running" /\ ~Matched
@@ -160,7 +191,7 @@ SkipRest == /\ l <= Len(Rec) /\ Cur.ev \notin {"reset", "log"} /\ phase \in {"re
             /\ UNCHANGED <<case, logline, nbig, cur, maxId, kfUsed>>
 
 \* the strict reading is tried first: a deviation action only where no contract action matches
-Strict == OkStream \/ BinMsgs \/ BinSum \/ EndMarker \/ Quiescent \/ OkChange \/ OkSearch \/ OkBsearch \/ ErrBsearch \/ Stopped \/ End
+Strict == OkStream \/ BinMsgs \/ BinSum \/ TxtSum \/ EndMarker \/ Quiescent \/ OkChange \/ OkSearch \/ OkBsearch \/ ErrBsearch \/ Stopped \/ End
 Next == \/ LogEv \/ Reset \/ Strict
         \/ (~ENABLED OkSearch /\ (KfSearchSkips \/ KfSearchUnfiltered))
         \/ (~ENABLED OkBsearch /\ KfIndexUnfiltered)
